@@ -21,6 +21,7 @@
 (*                  branch when target[key] is not a Mapping, per CopyMode)                                  *)
 (*   DUReturn       return to the caller: target[key] = <result>                                             *)
 (*   DUReturnRoot   return to update_section: self._sections[section] = <result>; the P-state moves           *)
+(*   ValidateOptions  (Group) cpp.Language._validate_language_options: options.update(defaults[options["std"]]) *)
 (*                                                                                                        *)
 (* P-layer state (the most general system the statement allows): pcfg[b] = Merge-fold of the source VALUES  *)
 (* in precedence order, ppend[b] the pending override values, loose[b] = builder b was used again after it   *)
@@ -37,6 +38,10 @@ CONSTANTS CopyMode,     \* "rebuild": target = deep_update({}, source)  (repaire
           AnyOrder,     \* TRUE: dict iteration order is arbitrary; FALSE: smallest key first (for case emission)
           NB,           \* builders (hist mode)
           MaxOps,       \* operations per history (hist mode)
+          Group,        \* "update" (fold mode): the language has option groups selected by a language standard, like C++:
+                        \*   root key 1 = `options`, root key 2 = `defaults`, options key 1 = `std`; the leaf identity of std
+                        \*   names the standard, defaults[<that name>] is the documented block of options.
+                        \*   "setdefault": negative control (the block only fills gaps).  "none": no groups.
           Record,       \* TRUE: keep the history for case emission
           Slice, NSlices \* the shapes of document 2 are split into NSlices parts, this run explores part Slice
                         \* (TLC barely scales with -workers on this model; the harness runs the parts as parallel JVMs)
@@ -66,8 +71,9 @@ ShapesPath(withD) ==
         m2 == {M(1 :> x) : x \in m3} \cup {M((1 :> x) @@ (2 :> x)) : x \in m3 \ {M(<<>>)}}
     IN {M(<<>>)} \cup {M(1 :> x) : x \in l \cup m2} \cup {M((1 :> x) @@ (2 :> X(0))) : x \in m2}
 
+(* every leaf of document i gets the identity i (+ 10 * the identity given in the shape, 0 except in UGroup) *)
 RECURSIVE Tag(_, _)
-Tag(v, i) == IF IsMap(v) THEN M([key \in DOMAIN v.m |-> Tag(v.m[key], i)]) ELSE [v EXCEPT !.v = i]
+Tag(v, i) == IF IsMap(v) THEN M([key \in DOMAIN v.m |-> Tag(v.m[key], i)]) ELSE [v EXCEPT !.v = i + 10 * @]
 
 (* ---------------------------------------------------------------------------------------------------- *)
 (* allocation of the documents on the heap                                                                *)
@@ -127,10 +133,14 @@ UFoldQ  == <<BuiltinShapes, Shapes3(FALSE), Shapes3(TRUE)>>
 UOrder  == <<{M(1 :> X(0)), M((1 :> X(0)) @@ (2 :> X(0))), M(1 :> M((1 :> X(0)) @@ (2 :> X(0))))}, Shapes3(FALSE), Shapes3(TRUE)>>
 UFold3D == <<BuiltinShapes, Shapes3(TRUE), Shapes3(TRUE)>>                      \* built-in, API document, override
 UFold4  == <<{M(1 :> X(0)), M((1 :> X(0)) @@ (2 :> X(0))), M(1 :> M((1 :> X(0)) @@ (2 :> X(0))))},
-             Shapes3(FALSE), Shapes3(FALSE), Shapes3(TRUE)>>                     \* built-in, two files, override
+             Shapes3(FALSE), Shapes3(FALSE), ShapesPath(TRUE)>>                  \* built-in, two files, override
 ShapesPathQ == {M(<<>>), M(1 :> X(0)), M(1 :> D(0)), M(1 :> M(1 :> X(0))), M(1 :> M(1 :> M(1 :> X(0)))),
                 M(1 :> M(1 :> M(1 :> D(0)))), M(1 :> M((1 :> M(1 :> X(0))) @@ (2 :> M(1 :> X(0)))))}
 UHistQ  == <<{M(<<>>), M(1 :> X(0)), M((1 :> X(0)) @@ (2 :> X(0)))}, ShapesPathQ, ShapesPathQ>>
+UGroup  == <<{M((1 :> M((1 :> X(0)) @@ (2 :> X(0)))) @@ (2 :> M(2 :> M((1 :> X(1)) @@ (2 :> X(1))))))},   \* options {std, k2}, defaults {2: {std, k2}}
+             Shapes3(FALSE), Shapes3(TRUE)>>
+UGroupNeg == <<{M((1 :> M((1 :> X(0)) @@ (2 :> X(0)))) @@ (2 :> M(2 :> M((1 :> X(1)) @@ (2 :> X(1))))))}, {M(1 :> M(1 :> X(0)))}, {M(<<>>)}>>
+UOrderQ == <<{M(1 :> X(0)), M((1 :> X(0)) @@ (2 :> X(0))), M(1 :> M((1 :> X(0)) @@ (2 :> X(0))))}, Shapes3(FALSE), ShapesPath(TRUE)>>
 UNegHist == <<{M(1 :> X(0))}, {M(1 :> M(1 :> M(1 :> X(0))))}, {M(1 :> M(1 :> M(1 :> X(0))))}>>
 UHist   == <<{M(<<>>), M(1 :> X(0)), M((1 :> X(0)) @@ (2 :> X(0)))}, ShapesPath(TRUE), ShapesPath(TRUE)>>
 UTiny   == <<{M(1 :> X(0))}, {M(1 :> M(1 :> M(1 :> X(0)))), M(1 :> M((1 :> M(1 :> X(0))) @@ (2 :> M(1 :> X(0)))))}, {M(1 :> M(1 :> M(1 :> X(0))))}>>
@@ -252,7 +262,7 @@ DUReturn ==
 
 DUReturnRoot ==
     /\ Len(stack) = 1 /\ Top.todo = {}
-    /\ stack' = <<>> /\ op' = Idle
+    /\ stack' = <<>> /\ op' = IF Group # "none" /\ op.kind = "create" THEN [kind |-> "validate", b |-> op.b, d |-> 0] ELSE Idle
     /\ broot' = [broot EXCEPT ![op.b] = Top.t]
     /\ LET np == Merge(pcfg[op.b], IF op.kind = "create" THEN ppend[op.b] ELSE doc0[op.d].m)
            pc == [pcfg EXCEPT ![op.b] = np]
@@ -261,13 +271,50 @@ DUReturnRoot ==
                      THEN [hist EXCEPT !.ops = Append(@, [op |-> op.kind, b |-> op.b, d |-> op.d,
                                                            exp |-> [b \in Builders |-> V2J(M(pc[b]))], loose |-> loose])]
                      ELSE hist
-    /\ ctxs' = IF op.kind = "create" THEN Append(ctxs, [b |-> op.b, frozen |-> Deref(heap, Top.t)]) ELSE ctxs
+    /\ ctxs' = IF op.kind = "create" /\ Group = "none" THEN Append(ctxs, [b |-> op.b, frozen |-> Deref(heap, Top.t)]) ELSE ctxs
     /\ UNCHANGED <<heap, docroot, doc0, pend, nops, ppend, loose>>
+
+(* Language.__init__ -> cpp._validate_language_options(defaults, options): the block of the selected standard is    *)
+(* written over the options map of the configuration, in place; then the context exists.                            *)
+(* P: every option of the documented block is set as a unit (GroupApply); options that a non-built-in source        *)
+(* mentions are not fixed (AnyV).                                                                                  *)
+Mentioned ==
+    UNION {IF 1 \in DOMAIN doc0[d].m /\ IsMap(doc0[d].m[1]) THEN {key \in DOMAIN doc0[d].m[1].m : doc0[d].m[1].m[key].k # "d"} ELSE {}
+           : d \in 2..NDocs}
+ValidateOptions ==
+    /\ op.kind = "validate"
+    /\ LET r == broot[op.b]
+           root == heap[r]
+           maps == 1 \in DOMAIN root /\ root[1].k = "r" /\ 2 \in DOMAIN root /\ root[2].k = "r"
+           o == root[1].v
+           df == root[2].v
+           sel == /\ maps /\ 1 \in DOMAIN heap[o] /\ heap[o][1].k # "r"                     \* language_standard = options["std"]
+                  /\ heap[o][1].v \in DOMAIN heap[df] /\ heap[df][heap[o][1].v].k = "r"       \* if language_standard in defaults
+           blk == heap[heap[df][heap[o][1].v].v]
+           nh == IF sel THEN [heap EXCEPT ![o] = [key \in (DOMAIN @) \cup DOMAIN blk |->
+                                                       IF key \in DOMAIN blk /\ (Group = "update" \/ key \notin DOMAIN @) THEN blk[key] ELSE @[key]]]
+                 ELSE heap
+           m == pcfg[op.b]
+           pmaps == 1 \in DOMAIN m /\ IsMap(m[1]) /\ 2 \in DOMAIN m /\ IsMap(m[2]) /\ 1 \in DOMAIN m[1].m
+           std == m[1].m[1]
+           psel == pmaps /\ std.k \in {"x", "d"} /\ std.v \in DOMAIN m[2].m /\ IsMap(m[2].m[std.v])
+           np == IF pmaps /\ std.k = "any" THEN Put(m, 1, AnyV)            \* the statement does not say which standard is selected
+                 ELSE IF psel THEN Put(m, 1, M(GroupApply(m[1].m, m[2].m[std.v].m, Mentioned)))
+                 ELSE m
+       IN /\ heap' = nh
+          /\ pcfg' = [pcfg EXCEPT ![op.b] = np]
+          /\ ctxs' = Append(ctxs, [b |-> op.b, frozen |-> Deref(nh, r)])
+          /\ hist' = IF Record THEN [hist EXCEPT !.ops = Append(@, [op |-> "validate", b |-> op.b, d |-> 0,
+                                                                    exp |-> [b \in Builders |-> V2J(M(IF b = op.b THEN np ELSE pcfg[b]))],
+                                                                    loose |-> loose])]
+                     ELSE hist
+    /\ op' = Idle
+    /\ UNCHANGED <<docroot, doc0, broot, pend, stack, nops, ppend, loose>>
 
 Next ==
     \/ Boot
     \/ \E b \in Builders : New(b) \/ Create(b) \/ \E d \in 2..NDocs : Upd(b, d) \/ SetOvr(b, d)
-    \/ DULeaf \/ DUDescend \/ DUReturn \/ DUReturnRoot
+    \/ DULeaf \/ DUDescend \/ DUReturn \/ DUReturnRoot \/ ValidateOptions
 
 Spec == Init /\ [][Next]_vars
 
